@@ -5,3 +5,4 @@ import Blackbird.Props.C01
 #print axioms Blackbird.C01_every_generation
 #print axioms Blackbird.C01_script_fixpoint
 #print axioms Blackbird.C01_text_parses
+#print axioms Blackbird.C01_tdm_reload_exact
